@@ -505,11 +505,10 @@ func (e *joinEnv) oneJoin(acts []JAct, cycle int) {
 				world.SpecIDs(e.src.Objects()), world.SpecIDs(e.mid.Objects()), world.SpecIDs(e.dst.Objects()))
 		}
 		if !seeded {
+			// seeded at a quiescent point: nothing is in flight, strict from here on
 			mirror = world.NewMirror("join-subscriber", specsOfObjs(objs))
+			mirror.Strict = true
 			seeded = true
-			for _, ev := range pending {
-				mirror.Apply(ev.Type, ev.Obj) // overlap window: tolerated per key
-			}
 			pending = nil
 		} else if m := world.SpecIDs(mirror.List()); !world.SameIDs(m, got) {
 			detsim.Fail("mirror-diverged", "join result: replaying its events does not give its cache\n  mirror: %v\n  cache : %v", m, got)
